@@ -14,10 +14,18 @@ def run(tier, seed):
     traces = {}
     for s in (44, 65, 87):
         vlib.drive(bindir, "sign", sets=s, seed=seed, nfull=nfull, nfactor=nfactor, allctx=allctx, acvp=acvp, nacvp=nacvp,
-                   acvpoff=seed % 10, out=chk.workdir)
+                   acvpoff=seed % 10, nhunt=1500 if tier == "quick" else 40000, nhuntfull=2 if tier == "quick" else 12, out=chk.workdir)
         traces[s] = os.path.join(chk.workdir, "sign_%d.ndjson" % s)
     n, mism = common.validate_f(chk, traces, nproc=12, key_of=lambda m: "sign:" + m["ev"])
     common.acvp_anchor(chk, 0, 1 if tier == "quick" else 4, 0, seed)
+    # samplers used by signing (ExpandMask, SampleInBall) at scale, rarest cases judged by TLC
+    sw = os.path.join(chk.workdir, "sw")
+    from concurrent.futures import ThreadPoolExecutor
+    rel = vlib.build_harness("release")
+    with ThreadPoolExecutor(max_workers=3) as ex:
+        list(ex.map(lambda s: vlib.drive(rel, "sweeps", sets=s, seed=seed, nkeys=0, nsamplers=4000 if tier == "quick" else 100000, nrare=1 if tier == "quick" else 6, out=sw), (44, 65, 87)))
+    n2, _ = common.validate_f(chk, {s: os.path.join(sw, "sweeps_%d.ndjson" % s) for s in (44, 65, 87)}, nproc=6, chunks_per_set=2, key_of=lambda m: "sampler:" + m["event"].get("fn", m["ev"]))
+    n += n2
     chk.leg("trace validation (Layer F judge)", events=n, full_recomputations_per_set=nfull + nacvp,
             factoring_grid="(mode x |ctx| x |M|), all |ctx| in 0..255 in thorough" )
     chk.cov["exhaustive"] = False
